@@ -380,7 +380,10 @@ def check(case, r, tier):
             for ctx in (".word %s", ".dword %s", "mov #%s, r0", "x = %s\n.word x", ".byte %s"):
                 text = ctx % s + "\n"
                 batch.expect_error(text, r, ("bad89", text), {"kind": "error", "text": text})
-        good = [(("dec", s), ".word %s" % s, e) for s, e in (("8.", b"\x08\x00"), ("9.", b"\x09\x00"), ("18.", b"\x12\x00"), ("0x8", b"\x08\x00"), ("^D9", b"\x09\x00"), ("0x9 + 8.", b"\x11\x00"))]
+        good = [(("dec", s), ".word %s" % s, e) for s, e in (("8.", b"\x08\x00"), ("9.", b"\x09\x00"), ("18.", b"\x12\x00"), ("0x8", b"\x08\x00"), ("^D9", b"\x09\x00"), ("0x9 + 8.", b"\x11\x00"),
+                                                             # shifting right by any count is plain arithmetic: floor(a / 2**n)
+                                                             ("1 >> 100000001.", b"\x00\x00"), ("-1 >> 100000001.", b"\xff\xff"), ("1 _ -100000001.", b"\x00\x00"), ("-5 _ -100000001.", b"\xff\xff"),
+                                                             ("1 >> 40000000000", b"\x00\x00"), ("<1 << 20.> >> 20000000.", b"\x00\x00"))]
         batch.run_valid_batch(good, r, ID)
         for s in ("1 / 0", "1 % 0", "5 / (2 - 2)", "1 << -1", "1 >> -1", "1 << (0 - 3)", "z / 0\nz = 4", "4 % y\ny = 0", "1 << n\nn = -2", "1 >> n\nn = -2"):
             text = ".word " + s + "\n"
